@@ -70,12 +70,86 @@ def run(ctx, run):
     _frame_pts_latched_at_start(ctx, run, P.need("demux_pes_packet_frame", UNIT))
     _no_case_fallthrough(ctx, run, P.need("valid_vbi_pes_packet_header", UNIT))
     _skip_counts_from_anchor(ctx, run, P.need("demux_pes_packet", UNIT))
+    _unit_fits_the_end(ctx, run, P.need("extract_data_units", UNIT))
     # partition invariance: the header validation looks only at bytes the wrap-around buffer has been
     # asked to provide (rule shared with C06)
     from . import C06
     C06._header_lookahead(ctx, run)
     from .. import sweep
     sweep.run(ctx, run, [UNIT], SWEEP_TRUSTED, 20, 1)
+
+def _unit_fits_the_end(ctx, run, f):
+    """extract_data_units(): the loop runs while the two header bytes of a data unit lie inside the packet
+    (`p + a < L`, so the packet ends at L - a + 2), and a unit is used only if `p + data_unit_length <= G`.  The unit
+    occupies 2 + data_unit_length bytes, so it fits iff G <= L - a: the guard and the loop condition have to describe the
+    same end (linear forms through reaching definitions).  Otherwise a unit crossing the end of the packet by one or two
+    bytes is decoded from whatever follows - which depends on how the stream was cut."""
+    from .. import linear
+    run.touch(f)
+    cur = None
+    loopc = None
+    guard = None
+    for bid in f.rpo():
+        t = f.blocks[bid].term
+        if not t or "cond" not in t:
+            continue
+        j = ex.skip(f, t["cond"])
+        e = f.exprs[j]
+        while e["k"] == "call" and e.get("callee") == "__builtin_expect":
+            j = ex.skip(f, e["c"][0])
+            e = f.exprs[j]
+        while e["k"] in ("cast",) or (e["k"] == "un" and e["op"] == "!"):
+            j = ex.skip(f, e["c"][0])
+            e = f.exprs[j]
+        if e["k"] != "bin" or e["op"] not in ("<", ">", "<=", ">="):
+            continue
+        ev = f.blocks[bid].elems[-1] if f.blocks[bid].elems else None
+        if ev is None:
+            continue
+        fa, fb = linear.exact(f, e["c"][0], ev), linear.exact(f, e["c"][1], ev)
+        if fa is None or fb is None:
+            continue
+        op = e["op"]
+        if op in (">", ">="):
+            fa, fb, op = fb, fa, {">": "<", ">=": "<="}[op]
+        # now  fa op fb  with op in < , <=
+        pa = {k: v for k, v in fa[0].items()}
+        pb = {k: v for k, v in fb[0].items()}
+        ptrs = lambda d: [k for k in d if any(p_.get("t", "").rstrip().endswith("*") for p_ in _decls(f, k))]
+        if t.get("kind") in ("WhileStmt", "ForStmt") and len(pa) == 1 and ptrs(pa) and list(pa.values()) == [1] and loopc is None:
+            loopc = (list(pa)[0], fa[1], fb, op)
+        elif loopc is not None and guard is None and len(pb) == 2 and pb.get(loopc[0]) == 1 and fb[1] == 0 \
+                and loopc[0] not in pa:
+            # G < p + dul   (from  p + dul > G)
+            guard = (fa, fb, op, bid)
+    if loopc is None or guard is None:
+        raise AnalysisBroken("extract_data_units: loop condition / data unit overflow guard not found")
+    cursor, a, L, lop = loopc
+    G = guard[0]
+    D = linear._add(G, L, -1)
+    key = "RF-LIN:extract_data_units:unit-fits-the-end"
+    if D[0]:
+        run.note("extract_data_units: the overflow guard bound %s and the loop bound %s are not comparable; not decided"
+                 % (linear.fmt(G), linear.fmt(L)))
+        return
+    if D[1] + a <= 0:
+        run.holds("RF-LIN", key, "loop while %s + %d < %s, unit used only if it ends at or before %s: header and payload fit"
+                  % (cursor, a, linear.fmt(L), linear.fmt(G)), "%s:%d" % (f.file, f.line))
+    else:
+        run.violation("RF-LIN", key, "the loop runs while %s + %d < %s but a data unit is accepted when %s + data_unit_length <= %s: "
+                      "the two header bytes are not accounted for, a unit may extend %d byte(s) past the end of the packet and is "
+                      "decoded from the bytes that follow" % (cursor, a, linear.fmt(L), cursor, linear.fmt(G), D[1] + a),
+                      "%s:%d" % (f.file, f.blocks[guard[3]].term.get("line", f.line)),
+                      witness={"loop_bound": linear.fmt(L), "guard_bound": linear.fmt(G), "header_bytes_in_loop_test": a})
+
+
+def _decls(f, name):
+    out = [p_ for p_ in f.params if p_["name"] == name]
+    for e in f.exprs:
+        if e["k"] == "decl":
+            out += [v for v in e.get("vars", []) if v["name"] == name]
+    return out
+
 
 def _skip_counts_from_anchor(ctx, run, f):
     """wrap_around() removes pes_wrap.skip bytes counted from the start of the window it handed out.  The
